@@ -5,16 +5,22 @@ import FP.Model.Json
 
 One binary column `subset<i>` per subset, one row `Σ_{i : element ∈ subsets[i]} subset<i> ≥ 1` per entry of
 `universe` (entries are not deduplicated; an element contained in no subset gives the empty row `0 ≥ 1`),
-objective `min Σ subset_weights[i] · subset<i>`.
+objective `min Σ subset_weights[i] · subset<i>` (`subset_weights=None` stands for unit weights).
 -/
 namespace FP
 
 structure MSCInput where
   univ : List String
   subsets : List (List String)
-  /-- `subset_weights` (explicit; `None` makes the constructor raise `TypeError` unless there is no subset) -/
+  /-- `self.subset_weights` after the constructor (see `mscWeights`) -/
   weights : List Rat
   deriving Repr, Inhabited
+
+/-- `__init__` (since fix 3364d5e): `subset_weights if subset_weights is not None else [1] * len(subsets)` -/
+def mscWeights (given : Option (List Rat)) (nSubsets : Nat) : List Rat :=
+  match given with
+  | some w => w
+  | none => List.replicate nSubsets 1
 
 def subsetVar (i : Nat) : Var := .ix "subset" i
 
@@ -26,13 +32,18 @@ def mscLP (inp : MSCInput) : LP :=
     obj := idx.map fun (i, _) => (inp.weights.getD i 0, subsetVar i) }
 
 open Lean in
-/-- `lp.msc`: `{"universe": [str], "subsets": [[str]], "weights": [q]}` -/
+/-- `lp.msc`: `{"universe": [str], "subsets": [[str]], "weights": [q] | null}` (`null` = `subset_weights=None`) -/
 def handleMSC (op : String) (j : Json) : Option (Except String Json) :=
   if op != "lp.msc" then none else some do
+    let subsets ← jList (asList (·.getStr?)) j "subsets"
+    let given : Option (List Rat) ← match j.getObjVal? "weights" with
+      | .ok Json.null => pure none
+      | .ok v => (asList asRat v).map some
+      | .error _ => pure none
     let inp : MSCInput :=
       { univ := ← jList (·.getStr?) j "universe",
-        subsets := ← jList (asList (·.getStr?)) j "subsets",
-        weights := ← jList asRat j "weights" }
+        subsets := subsets,
+        weights := mscWeights given subsets.length }
     if inp.weights.length < inp.subsets.length then
       throw "subset_weights shorter than subsets (python: IndexError)"
     return strArr (mscLP inp).dump
